@@ -7,7 +7,7 @@ from vlib import *
 ALL_RICH = ["sub", "bind", "unsub", "unbind", "write", "read", "entrem", "entadd", "discover", "disconnect",
             "lsub", "lbind", "lunsub", "lunbind", "listsubs", "listbinds"]
 ALL_COMPS = ["out", "ev", "ret", "conn", "known", "subs", "binds", "csub", "cbind", "data",
-             "panic", "dupout", "dupev", "ids", "resolve", "tree"]
+             "panic", "dupout", "dupev", "ids", "resolve", "tree", "cbf", "reqs", "dupcb", "ucs", "hasuc"]
 
 COMP_MEANING = {
     "out": "replies/results/notifications written per connection", "ev": "events published", "ret": "API return",
@@ -17,9 +17,9 @@ COMP_MEANING = {
     "resolve": "device resolvable by SKI/address iff connected"}
 
 
-def consts(peers=("p1", "p2"), acts=(), rich=(), maxval=1, devs=(), ghost=0, tiny=()):
+def consts(peers=("p1", "p2"), acts=(), rich=(), maxval=1, devs=(), ghost=0, tiny=(), maxreq=3):
     return {"Peers": set(peers), "KnownDeviations": set(devs), "Acts": set(acts), "MaxVal": maxval, "Rich": set(rich), "GhostCap": ghost,
-            "Tiny": set(tiny)}
+            "Tiny": set(tiny), "MaxReq": maxreq}
 
 
 def mc_run(c, maxlen, prefix, timeout, workers=NCPU):
@@ -171,9 +171,21 @@ def selftest(sc, topo, behs, c, checked):
             k0 = sorted(e["st"]["data"])[0]
             e["st"]["data"][k0] += 1
             comp = "data"
-        else:
+        elif "ucs" in checked:
+            e["st"]["ucs"] = e["st"]["ucs"] + [{"e": "2", "actor": "EV", "name": "ucZ", "ver": "9", "av": True, "sc": "1"}]
+            comp = "ucs"
+        elif "cbf" in checked:
+            e["cbf"] = e["cbf"] + [{"k": "K1", "cb": 1, "kind": "resp", "h": 0, "good": True}]
+            comp = "cbf"
+        elif "known" in checked:
+            p0 = sorted(e["st"]["known"])[0]
+            e["st"]["known"][p0] = e["st"]["known"][p0] + ["2"] if "2" not in e["st"]["known"][p0] else [x for x in e["st"]["known"][p0] if x != "2"]
+            comp = "known"
+        elif "ev" in checked:
             e["ev"] = e["ev"] + [{"t": "dev", "chg": "add", "p": "p1", "e": "", "c": "", "s": ""}]
             comp = "ev"
+        else:
+            raise Inconclusive("binding self-test: no corruptible component among " + str(checked))
     lines[target] = json.dumps(e)
     open(tf, "w").write("\n".join(lines) + "\n")
     cfg = cfg_text("TraceSpec", dict(c, Checked=set(checked)), invariants=["Final"], postcondition="Done")
@@ -209,21 +221,23 @@ def run(prop, tier, seed, P, replay=None):
         # 1. design-level exhaustive check
         mcs = []
         for m in T["mc"]:
-            st = mc_run(consts(peers=m.get("peers", ("p1", "p2")), acts=m["acts"], rich=m.get("rich", ()), maxval=m.get("maxval", 1)),
+            st = mc_run(consts(peers=m.get("peers", ("p1", "p2")), acts=m["acts"], rich=m.get("rich", ()), maxval=m.get("maxval", 1),
+                               tiny=m.get("tiny", ()), maxreq=m.get("maxreq", 2)),
                         m["maxlen"], m.get("prefix", "PrefixNone"), timeout=T.get("mc_timeout", 900))
             mcs.append(st)
             log("[%s] spec check: %d distinct states, %d transitions" % (prop, st["distinct"], st["generated"]))
         # 2. behaviours from TLC
         behs, topo, gen_trans = [], None, 0
         for g in T["gen"]:
-            c = consts(peers=g.get("peers", ("p1", "p2")), acts=g["acts"], rich=g.get("rich", ()), maxval=g.get("maxval", 1), ghost=g.get("ghost", 0), tiny=g.get("tiny", ()))
+            c = consts(peers=g.get("peers", ("p1", "p2")), acts=g["acts"], rich=g.get("rich", ()), maxval=g.get("maxval", 1), ghost=g.get("ghost", 0), tiny=g.get("tiny", ()), maxreq=g.get("maxreq", 2))
             topo, b, st = gen_bfs(c, g["maxlen"], g.get("prefix", "PrefixNone"), timeout=T.get("gen_timeout", 900), view=g.get("view", "View"))
             log("[%s] generator %s maxlen %d view %s: %d behaviours" % (prop, g["acts"], g["maxlen"], g.get("view", "View"), len(b)))
             gen_trans += len(b)
             behs += b
         nbfs = len(behs)
         for g in T.get("sim", []):
-            c = consts(peers=g.get("peers", ("p1", "p2")), acts=g["acts"], rich=g.get("rich", ()), maxval=g.get("maxval", 2))
+            c = consts(peers=g.get("peers", ("p1", "p2")), acts=g["acts"], rich=g.get("rich", ()), maxval=g.get("maxval", 2), tiny=g.get("tiny", ()),
+                       maxreq=g.get("maxreq", 3))
             behs += gen_sim(c, g["maxlen"], g.get("prefix", "PrefixNone"), g["num"], seed + 1, timeout=T.get("gen_timeout", 900))
         cap = T.get("cap")
         if cap and len(behs) > cap:
